@@ -1623,7 +1623,22 @@ def check_index_space_split(chk, funcs):
         def txt(x):
             return astdb.expr_text(strip(x, casts=True)).replace(' ', '')
 
-        def cond_facts(c, truth):
+        def cond_facts(c, truth, depth=0):
+            if c.get('kind') == 'DeclRefExpr' and c.get('referencedDecl', {}).get('kind') == 'VarDecl' and depth < 2:
+                # a flag that holds the outcome of the comparison (single definition, e.g. `const bool isImport = index < count;`)
+                vid = c['referencedDecl']['id']
+                defs = []
+                for x in walk(body):
+                    if x.get('kind') == 'VarDecl' and x.get('id') == vid and x.get('init'):
+                        defs.append([k_ for k_ in kids(x) if k_.get('kind')][-1])
+                    elif x.get('kind') in ('BinaryOperator', 'CompoundAssignOperator', 'UnaryOperator') and \
+                            x.get('opcode') in ('=', '+=', '-=', '++', '--', '|=', '&='):
+                        l = strip(kids(x)[0])
+                        if l.get('kind') == 'DeclRefExpr' and l['referencedDecl'].get('id') == vid:
+                            defs.append(None)
+                if len(defs) == 1 and defs[0] is not None:
+                    return cond_facts(strip(defs[0], casts=True), truth, depth + 1)
+                return ()
             if c.get('kind') != 'BinaryOperator' or c.get('opcode') not in ('<', '>', '<=', '>='):
                 return ()
             a_, b_ = [txt(x) for x in kids(c)]
